@@ -2,6 +2,8 @@ import H3.Drv.Util
 import H3.Drv.FaultOp
 import H3.Model.Control
 import H3.Model.FrameStream
+import H3.Model.Setup
+import H3.Model.Config
 import H3.Spec.ControlRules
 import H3.Spec.Framing
 /-! Driver engine `ctl` (C04): interprets a scenario line of the connection-level scenario
@@ -16,8 +18,17 @@ import H3.Spec.Framing
       `Spec.ControlRules` (stream header by RFC 9000 §16, control stream segmented by
       `Spec.Framing.observe`); `must`/`may` verdicts fork into alternatives.
 
-    Output: `closed=[codes] res=<results of A/W> U=<results of U> | build=… stops=[…] g=… pending=[…]`
-    `##` alternatives `closed=[c] res=… U=… **`.  -/
+    The endpoint's OWN setup streams (control, QPACK encoder, QPACK decoder) are part of the scenario:
+    stream credit (`uc=`, `gu<n>`), write credit (`wc=`, `gw<sid>:<n>`), the peer's STOP_SENDING
+    (`x<sid>:<c>`).  Model: `Setup.buildPoll` (the `build` future) and `Setup.pollWrite` /
+    `shutdownPlan` / `shutdownWrite` (the server's final GOAWAY, `accept` → `shutdown(0)`) over `ownTr`
+    (SimQuic); spec: `specSetup`, `finalAlts`, `Spec.ControlRules.ownStopped`.  With grease on the
+    length of the control stream header is random (`ctlHdrMin`..`ctlHdrMax`): a line on which that
+    matters prints `unsupported ## ?`.
+
+    Output: `closed=[codes] res=<results of A/W> U=<results of U> | build=ok|pending|err:<code> stops=[…] g=… pending=[…]`
+    `##` alternatives `closed=[c] res=… U=… **`.  Engine `ctlrfc`: the same, judged by
+    `Spec.ControlRules.verdictRfc` (RFC 9114 by the letter also for server push).  -/
 namespace H3.Drv.C04
 open H3.Drv H3.Control
 
@@ -83,6 +94,11 @@ structure RunCfg where
   wt : Bool := false
   uc : Option Nat := none
   wc : Option Nat := none
+  /-- what else goes into the SETTINGS frame (its length matters when write credit is short) -/
+  mfs : Option Nat := none
+  ec : Bool := false
+  dg : Bool := false
+  wts : Option Nat := none
 deriving Repr
 
 def parseCfg (server : Bool) (s : String) : Option RunCfg :=
@@ -95,7 +111,11 @@ def parseCfg (server : Bool) (s : String) : Option RunCfg :=
         if k == "wt" then some { c with wt := server && v == "1" }   -- the client builder has no such switch
         else if k == "uc" then v.toNat?.map (fun n => { c with uc := some n })
         else if k == "wc" then v.toNat?.map (fun n => { c with wc := some n })
-        else if k == "seed" || k == "mfs" || k == "ec" || k == "dg" || k == "wts" || k == "bc" then some c
+        else if k == "mfs" then v.toNat?.map (fun n => { c with mfs := some n })
+        else if k == "wts" then v.toNat?.map (fun n => { c with wts := some n })
+        else if k == "ec" then some { c with ec := v == "1" }
+        else if k == "dg" then some { c with dg := v == "1" }
+        else if k == "seed" || k == "bc" then some c
         else none
       | _ => none
 
@@ -103,6 +123,8 @@ def parseCfg (server : Bool) (s : String) : Option RunCfg :=
 
 inductive Mode where
   | idle | awaiting | looping
+  /-- `conn.A` taken while the accept loop runs: one `accept().await`, then the loop goes on -/
+  | awaitLoop
 deriving Repr, DecidableEq
 
 structure Task where
@@ -113,57 +135,104 @@ structure Task where
   bad : Bool := false
 deriving Repr
 
-/-- `builder.build(conn)` needs three unidirectional streams and room for the three stream
-    headers: credit of the control / encoder / decoder send streams (`none` = unlimited).  The
-    control stream header with SETTINGS has between 26 and 50 bytes. -/
-structure Build where
-  lc : List (Option Nat) := [none, none, none]
-  built : Bool := true
-  unsupported : Bool := false
-  odd : Bool := false
-deriving Repr
+/-! ### SimQuic for the endpoint's own setup streams (shared by model and spec)
 
-def enough (need : Nat) (c : Option Nat) : Bool :=
-  match c with
-  | none => true
-  | some k => decide (k ≥ need)
-
-def oddCredit (c : Option Nat) : Bool :=
-  match c with
-  | some k => decide (0 < k ∧ k < 64)
-  | none => false
-
-def Build.check (b : Build) : Build :=
-  match b.lc with
-  | [c0, c1, c2] =>
-    let built := b.built || (enough 64 c0 && enough 1 c1 && enough 1 c2)
-    -- a control stream header written in part only (credit between 1 and 63, `build` still
-    -- waiting): how much is missing depends on the SETTINGS chosen; not modelled
-    { b with built := built, odd := !built && oddCredit c0 }
-  | _ => b
-
-def lowCredit (c : Option Nat) : Bool :=
-  match c with
-  | some k => decide (k < 3)
-  | none => false
-
-def Build.init (c : RunCfg) : Build :=
-  Build.check { lc := [c.wc, c.wc, c.wc], built := false, unsupported := lowCredit c.uc }
+`builder.build(conn)` needs three unidirectional streams (stream credit `uc`, `gu<n>`) and room for
+the three stream headers (write credit `wc`, `gw<sid>:<n>`); later the server's `accept` writes its
+final GOAWAY on the control stream.  The peer may send STOP_SENDING on any of them (`x<sid>:<c>`). -/
 
 def localBase (server : Bool) : Nat := if server then 3 else 2
 
-def Build.grant (b : Build) (server : Bool) (sid n : Nat) : Build :=
-  let base := localBase server
-  let lc := b.lc.zipIdx.map (fun (ci : Option Nat × Nat) =>
-    if sid = base + 4 * ci.2 then ci.1.map (· + n) else ci.1)
-  Build.check { b with lc := lc }
+/-- one of the endpoint's own setup streams, numbered in the order they are opened
+    (0 control, 1 QPACK encoder, 2 QPACK decoder) -/
+structure OwnS where
+  /-- `tx_credit` (`none` = unlimited) -/
+  credit : Option Nat := none
+  /-- bytes handed over by `send_data` and not yet accepted (`writing`) -/
+  left : Nat := 0
+  /-- `peer_stopped` -/
+  stopped : Option Nat := none
+  /-- bytes accepted so far -/
+  written : Nat := 0
+deriving Repr
+
+structure OwnNet where
+  uc : Option Nat := none
+  /-- `default_tx_credit` -/
+  wc : Option Nat := none
+  ss : List OwnS := []
+  /-- what `send_data` on stream `k` hands over next -/
+  sizes : List Nat := [0, 0, 0]
+deriving Repr
+
+def OwnNet.upd (n : OwnNet) (k : Nat) (f : OwnS → OwnS) : OwnNet :=
+  { n with ss := n.ss.zipIdx.map fun (si : OwnS × Nat) => if si.2 == k then f si.1 else si.1 }
+
+/-- `sid` is the `k`-th own setup stream and it has been opened -/
+def OwnNet.index (n : OwnNet) (server : Bool) (sid : Nat) : Option Nat :=
+  (List.range n.ss.length).find? (fun k => sid == localBase server + 4 * k)
+
+/-- `x<sid>:<c>`: `peer_stop` (the first code stays; a stream that does not exist yet is not touched) -/
+def OwnNet.stop (n : OwnNet) (k c : Nat) : OwnNet :=
+  n.upd k fun s => { s with stopped := s.stopped.or (some c) }
+
+/-- `gw<sid>:<n>`: `grant_write` -/
+def OwnNet.grant (n : OwnNet) (k m : Nat) : OwnNet :=
+  n.upd k fun s => { s with credit := s.credit.map (· + m) }
+
+/-- sim.rs `open()`, `send_data`, `poll_ready` (STOP_SENDING is looked at before the credit) -/
+def ownCall (n : OwnNet) : H3.Setup.Call → OwnNet × H3.Setup.Ans
+  | .openSend _ =>
+    if n.uc == some 0 then (n, .pending)
+    else ({ n with uc := n.uc.map (· - 1), ss := n.ss ++ [{ credit := n.wc }] }, .ok)
+  | .sendData k => (n.upd k fun s => { s with left := n.sizes.getD k 0 }, .ok)
+  | .pollReady k =>
+    match n.ss[k]? with
+    | none => (n, .ok)
+    | some s =>
+      match s.stopped with
+      | some c => (n.upd k fun s => { s with left := 0 }, .err (.terminated c))
+      | none =>
+        let take := match s.credit with
+          | none => s.left
+          | some c => min c s.left
+        let s1 := { s with left := s.left - take, credit := s.credit.map (· - take), written := s.written + take }
+        (n.upd k fun _ => s1, if s1.left == 0 then .ok else .pending)
+
+def ownTr : H3.Setup.Transport OwnNet := { call := ownCall }
+
+def cfgRecord (rc : RunCfg) : H3.Config.Record :=
+  let d := H3.Config.Record.default
+  { mfs := rc.mfs.getD d.mfs, wt := rc.server && rc.wt, ec := rc.ec, dg := rc.dg,
+    wts := if rc.server then rc.wts.getD d.wts else d.wts }
+
+/-- length of `UniStreamHeader::Control(settings)`: stream type + SETTINGS frame (C13's model);
+    `n` = the draw of `SettingId::grease()` -/
+def ctlHdrLen (rc : RunCfg) (n : Nat) : Option Nat :=
+  match H3.Config.setup { grease := rc.grease, settings := cfgRecord rc } n with
+  | .sent b => some b.length
+  | _ => none
+
+/-- With grease on the reserved setting id is random (1 to 8 bytes): the length of the control
+    stream header is not a function of the case line, only its bounds are. -/
+def ctlHdrMin (rc : RunCfg) : Nat := (ctlHdrLen rc 0).getD 0
+def ctlHdrMax (rc : RunCfg) : Nat := (ctlHdrLen rc (2 ^ 56)).getD 0
+
+def OwnNet.init (rc : RunCfg) : OwnNet :=
+  { uc := rc.uc, wc := rc.wc, sizes := [ctlHdrMax rc, 1, 1] }
+
+/-- the server's last GOAWAY (`accept` → `shutdown(0)`, no request was accepted): `07 01 00` -/
+def GOAWAY_LEN : Nat := 3
 
 def isStart (server : Bool) (c : String) : Bool := (server && c == "AL") || (!server && c == "W")
 def isStop (server : Bool) (c : String) : Bool := (server && c == "AS") || (!server && c == "WS")
 
 /-- runs the task until it has to wait.  `poll` = one poll of the pending `accept`/`wait_idle`
-    (result when it completes), `drain` = the `U` command; `poll` may fork (specification). -/
-def runTask {σ : Type} (server : Bool) (poll : σ → List (σ × Option String)) (drain : σ → σ × String) :
+    (result when it completes), `drain` = the `U` command; `poll` may fork (specification);
+    `drop` = the pending `accept()` / `wait_idle()` future is dropped (the loop's `select` took a
+    command instead). -/
+def runTask {σ : Type} (server : Bool) (poll : σ → List (σ × Option String)) (drain : σ → σ × String)
+    (drop : σ → σ) :
     Nat → σ × Task → List (σ × Task)
   | 0, st => [st]
   | fuel+1, (s, t) =>
@@ -174,32 +243,39 @@ def runTask {σ : Type} (server : Bool) (poll : σ → List (σ × Option String
       | [] => [(s, t)]
       | c :: rest =>
         let t := { t with mailbox := rest }
-        if server && c == "A" then runTask server poll drain fuel (s, { t with mode := .awaiting })
-        else if isStart server c then runTask server poll drain fuel (s, { t with mode := .looping })
-        else if isStop server c then runTask server poll drain fuel (s, t)
+        if server && c == "A" then runTask server poll drain drop fuel (s, { t with mode := .awaiting })
+        else if isStart server c then runTask server poll drain drop fuel (s, { t with mode := .looping })
+        else if isStop server c then runTask server poll drain drop fuel (s, t)
         else if c == "U" then
           let (s1, u) := drain s
-          runTask server poll drain fuel (s1, { t with us := t.us ++ [u] })
+          runTask server poll drain drop fuel (s1, { t with us := t.us ++ [u] })
         else [(s, { t with bad := true })]
     | .awaiting =>
       (poll s).flatMap fun (s1, r) =>
         match r with
-        | some x => runTask server poll drain fuel (s1, { t with results := t.results ++ [x], mode := .idle })
+        | some x => runTask server poll drain drop fuel (s1, { t with results := t.results ++ [x], mode := .idle })
+        | none => [(s1, t)]
+    | .awaitLoop =>
+      (poll s).flatMap fun (s1, r) =>
+        match r with
+        | some x => runTask server poll drain drop fuel (s1, { t with results := t.results ++ [x], mode := .looping })
         | none => [(s1, t)]
     | .looping =>
       (poll s).flatMap fun (s1, r) =>
         match r with
-        | some x => runTask server poll drain fuel (s1, { t with results := t.results ++ [x], mode := .idle })
+        | some x => runTask server poll drain drop fuel (s1, { t with results := t.results ++ [x], mode := .idle })
         | none =>
           match t.mailbox with
           | [] => [(s1, t)]
           | c :: rest =>
             let t := { t with mailbox := rest }
+            let s1 := drop s1
             if c == "U" then
               let (s2, u) := drain s1
-              runTask server poll drain fuel (s2, { t with us := t.us ++ [u] })
-            else if isStop server c then runTask server poll drain fuel (s1, { t with mode := .idle })
-            else if isStart server c then runTask server poll drain fuel (s1, t)
+              runTask server poll drain drop fuel (s2, { t with us := t.us ++ [u] })
+            else if isStop server c then runTask server poll drain drop fuel (s1, { t with mode := .idle })
+            else if isStart server c then runTask server poll drain drop fuel (s1, t)
+            else if server && c == "A" then runTask server poll drain drop fuel (s1, { t with mode := .awaitLoop })
             else [(s1, { t with bad := true })]
 
 def peerUni (server : Bool) (sid : Nat) : Bool := if server then sid % 4 == 2 else sid % 4 == 3
@@ -241,7 +317,16 @@ structure Sys where
   gs : Grease := {}
   streams : List UStream := []
   fs : H3.FS.St := {}
-  build : Build := {}
+  /-- the endpoint's own setup streams in SimQuic, the `build` future, its outcome -/
+  net : OwnNet := {}
+  bst : H3.Setup.BSt := {}
+  built : Bool := true
+  buildErr : Option Nat := none
+  /-- grease on: whether the control stream header is complete depends on the random setting id -/
+  amb : Bool := false
+  /-- `sent_closing`; the `accept()` future is inside `shutdown(0).await`, its write in this state -/
+  sentClosing : Bool := false
+  ga : Option H3.Setup.WSt := none
   uc : Option Nat := none
   gGranted : Option Nat := none
   gStopped : Bool := false
@@ -263,9 +348,26 @@ deriving Repr
 def Sys.cfg (s : Sys) : Cfg := { role := if s.rc.server then .server else .client, wt := s.rc.wt }
 
 def Sys.init (rc : RunCfg) : Sys :=
-  let b := Build.init rc
-  { rc := rc, gs := { flag := rc.grease }, build := b,
-    uc := rc.uc.map (· - 3), unsupported := b.unsupported }
+  { rc := rc, gs := { flag := rc.grease }, net := OwnNet.init rc, built := false,
+    unsupported := (ctlHdrLen rc 0).isNone }
+
+def cerrCode : H3.ErrCell.CErr → Nat
+  | .localApp c _ => c
+  | _ => 0
+
+/-- one poll of the `build` future (`Setup.buildPoll` over SimQuic) while it is pending -/
+def pollBuild (s : Sys) : Sys :=
+  if s.built || s.buildErr.isSome then s else
+  let o := H3.Setup.buildPoll ownTr s.net s.bst
+  -- the header is `ctlHdrMax` bytes long here; a shorter one could be complete by now
+  let amb := s.amb || (match o.t.ss[0]? with
+    | some c => s.rc.grease && decide (c.left > 0) && decide (c.written ≥ ctlHdrMin s.rc)
+    | none => false)
+  let s := { s with net := o.t, bst := o.st, amb := amb }
+  match o.res with
+  | none => s
+  | some none => { s with built := true, uc := o.t.uc }
+  | some (some e) => { s with buildErr := some (cerrCode e), closed := s.closed ++ o.st.drv.closes }
 
 /-- `poll_type` on one pending stream -/
 def pollStream (u : UStream) : UStream × Option Arrival × Bool :=
@@ -450,6 +552,44 @@ def pollDriver (s : Sys) : Sys × Option String :=
     | none => if s.rc.server && d.conn.recvClosing.isSome then some "none" else none
   (s1, res)
 
+/-- the tail of server `accept()`: `Ok(None)` → `self.shutdown(0).await?; return Ok(None)`.
+    `ConnectionInner::shutdown`: nothing is written when a GOAWAY went out before; otherwise
+    `sent_closing` is set and GOAWAY(0) is written on the control stream (`stream::write`).  The
+    write may stay pending for want of credit (`accept` is then pending inside `shutdown`, the
+    control loop is not polled) or meet the peer's STOP_SENDING: H3_CLOSED_CRITICAL_STREAM. -/
+def finalGoaway (s : Sys) : Sys × Option String :=
+  let plan : H3.Setup.ShutdownPlan :=
+    if s.ga.isSome then .write else H3.Setup.shutdownPlan {} s.sentClosing
+  match plan with
+  | .report _ => (s, none)
+  | .nothing => (s, some "none")
+  | .write =>
+    let (w0, net0) : H3.Setup.WSt × OwnNet :=
+      match s.ga with
+      | some w => (w, s.net)
+      | none => (.start, { s.net with sizes := [GOAWAY_LEN, 0, 0] })
+    let (net1, w1, _) := H3.Setup.pollWrite ownTr net0 0 w0
+    let s := { s with net := net1, sentClosing := true }
+    match w1 with
+    | .done r =>
+      match H3.Setup.shutdownWrite {} r with
+      | (_, none) => ({ s with ga := none }, some "none")
+      | (d, some e) =>
+        ({ s with ga := none, conn := s.conn.fail (cerrCode e), closed := s.closed ++ d.closes },
+         some s!"err:{cerrCode e}")
+    | w => ({ s with ga := some w }, none)
+
+/-- one poll of the pending `accept()` / `wait_idle()` -/
+def pollAccept (s : Sys) : Sys × Option String :=
+  if s.ga.isSome then finalGoaway s else
+  match pollDriver s with
+  | (s1, some r) => if r == "none" then finalGoaway s1 else (s1, some r)
+  | (s1, none) => (s1, none)
+
+/-- the `accept()` future is dropped: a GOAWAY write in progress is abandoned (`sent_closing`
+    stays set, what `send_data` handed over stays with the transport) -/
+def dropAccept (s : Sys) : Sys := { s with ga := none }
+
 def drainOne (u : UStream) : String :=
   match u.phase with
   | .wt session =>
@@ -485,16 +625,21 @@ def applyOp (s : Sys) (t : Task) : Op → Sys × Task
   | .chunk sid b => (s.peer sid (.chunk b), t)
   | .fin sid => (s.peer sid .fin, t)
   | .reset sid c => (s.peer sid (.reset c), t)
-  | .stop sid _ =>
-    if sid == greaseSid s.rc.server && s.gs.step != .notStarted then ({ s with gStopped := true }, t)
-    else (s, t)
-  | .gu n => ({ s with uc := s.uc.map (· + n) }, t)
+  | .stop sid c =>
+    if sid == greaseSid s.rc.server then
+      if s.gs.step != .notStarted then ({ s with gStopped := true }, t) else (s, t)
+    else
+      match s.net.index s.rc.server sid with
+      | some k => ({ s with net := s.net.stop k c }, t)
+      | none => (s, t)
+  | .gu n => ({ s with uc := s.uc.map (· + n), net := { s.net with uc := s.net.uc.map (· + n) } }, t)
   | .gw sid n =>
     if sid == greaseSid s.rc.server then
       if s.gs.step != .notStarted then ({ s with gGranted := s.gGranted.map (· + n) }, t) else (s, t)
     else
-      let b := s.build.grant s.rc.server sid n
-      ({ s with build := b, unsupported := s.unsupported || b.unsupported }, t)
+      match s.net.index s.rc.server sid with
+      | some k => ({ s with net := s.net.grant k n }, t)
+      | none => (s, t)
   | .api cmd => (s, { t with mailbox := t.mailbox ++ [cmd] })
   | .fault f =>
     -- engine `ctl`: stream errors on the grease stream only (connection errors are engine `flt`'s)
@@ -508,9 +653,10 @@ def runModel (s : Sys) (t : Task) : List Op → Sys × Task
   | [] => (s, t)
   | op :: rest =>
     let (s1, t1) := applyOp s t op
+    let s1 := pollBuild s1
     let (s2, t2) :=
-      if s1.build.built then
-        match runTask s1.rc.server (fun x => [pollDriver x]) drainU 64 (s1, t1) with
+      if s1.built then
+        match runTask s1.rc.server (fun x => [pollAccept x]) drainU dropAccept 64 (s1, t1) with
         | r :: _ => r
         | [] => (s1, t1)
       else (s1, t1)
@@ -525,21 +671,25 @@ def gState (c : Grease) : String :=
 
 def natList (xs : List Nat) : String := ",".intercalate (xs.map toString)
 
-def pendingOf (server : Bool) (built : Bool) (t : Task) : String :=
+def pendingOf (server : Bool) (built failed : Bool) (t : Task) : String :=
   let task := if server then "conn" else "drv"
-  if !built then s!"{task}.build"
+  if failed then ""
+  else if !built then s!"{task}.build"
   else match t.mode with
     | .idle => ""
     | _ => if server then "conn.A" else "drv.W"
 
 def renderModel (s : Sys) (t : Task) : String :=
   if s.panic then "panic"
-  else if s.unsupported || t.bad || s.build.odd then "unsupported"
+  else if s.unsupported || t.bad || s.amb then "unsupported"
   else
     let stops := (s.streams.mergeSort (fun a b => decide (a.sid ≤ b.sid))).filterMap fun u => u.stop.map (fun c => s!"{u.sid}:{c}")
     s!"closed=[{natList s.closed}] res={renderList t.results ","} U={renderList t.us "/"} | " ++
-    s!"build={if s.build.built then "ok" else "pending"} stops=[{",".intercalate stops}] g={gState s.gs} " ++
-    s!"pending=[{pendingOf s.rc.server s.build.built t}]"
+    let build := match s.buildErr with
+      | some e => s!"err:{e}"
+      | none => if s.built then "ok" else "pending"
+    s!"build={build} stops=[{",".intercalate stops}] g={gState s.gs} " ++
+    s!"pending=[{pendingOf s.rc.server s.built s.buildErr.isSome t}]"
 
 /-! ### specification side -/
 
@@ -558,6 +708,12 @@ structure SStream where
   drained : Bool := false
 deriving Repr
 
+/-- the setup as the specification sees it: going on, over with a connection, over with
+    H3_CLOSED_CRITICAL_STREAM -/
+inductive SSetup where
+  | running | done | failed
+deriving Repr, DecidableEq
+
 open H3.Spec.ControlRules in
 structure SpecSt where
   rc : RunCfg
@@ -566,7 +722,16 @@ structure SpecSt where
   ctlSid : Option Nat := none
   dead : Option Nat := none
   wtOrder : List Nat := []
-  build : Build := {}
+  /-- the endpoint's own setup streams in SimQuic -/
+  env : OwnNet := {}
+  setup : SSetup := .running
+  /-- the server's final GOAWAY is out (or was left to the transport) -/
+  finalSent : Bool := false
+  /-- the pending `accept` has decided to answer "no more requests" and waits for its GOAWAY to be
+      taken by the transport; it does not look at the peer's streams meanwhile -/
+  waiting : Bool := false
+  /-- engine `ctlrfc`: judge by `verdictRfc` (RFC 9114 by the letter also for server push) -/
+  strict : Bool := false
   /-- the specification has no opinion on this line -/
   unknown : Bool := false
 deriving Repr
@@ -582,7 +747,7 @@ def SpecSt.peerEnd (s : SpecSt) (sid : Nat) (e : UniAccept.End) : SpecSt :=
 open H3.Spec.ControlRules in
 /-- apply one event under every way the verdict allows: `(state, died with code?)` -/
 def judge (s : SpecSt) (e : H3.Spec.ControlRules.Ev) : List SpecSt :=
-  match verdict s.rc.server s.st e with
+  match (if s.strict then verdictRfc s.rc.server s.st e else verdict s.rc.server s.st e) with
   | (.ok, st1) => [{ s with st := st1 }]
   | (.must cs, _) => cs.map fun c => { s with dead := some c }
   | (.may cs, st1) => (cs.map fun c => { s with dead := some c }) ++ [{ s with st := st1 }]
@@ -659,12 +824,95 @@ def ctlPhase (s : SpecSt) : List SpecSt :=
         else r
     new.foldl step [s1]
 
+/-! The endpoint's own streams, specification side (RFC 9114 §6.2.1: "Each side MUST initiate a
+    single control stream at the beginning of the connection and send its SETTINGS frame as the first
+    frame on this stream"; "If either control stream is closed at any point, this MUST be treated as
+    a connection error of type H3_CLOSED_CRITICAL_STREAM"; the peer's STOP_SENDING asks for just
+    that).  The endpoint opens its three streams as stream credit allows, then puts the three
+    headers on them as write credit allows; `builder.build` is over when every header is out or
+    its stream was stopped.  A stopped control stream whose SETTINGS are not out: `must`
+    H3_CLOSED_CRITICAL_STREAM when the setup is over, `may` before (an endpoint that notices at
+    once); a stopped QPACK stream (RFC 9204 §4.2; not in the property's text): `may`. -/
+
+def specOpen : Nat → OwnNet → OwnNet
+  | 0, n => n
+  | fuel+1, n =>
+    if n.ss.length < 3 && n.uc != some 0 then
+      specOpen fuel { n with uc := n.uc.map (· - 1),
+                             ss := n.ss ++ [{ credit := n.wc, left := n.sizes.getD n.ss.length 0 }] }
+    else n
+
+def specPush (n : OwnNet) : OwnNet :=
+  if n.ss.length < 3 then n else
+  { n with ss := n.ss.map fun s =>
+      if s.stopped.isSome then s else
+      let take := match s.credit with
+        | none => s.left
+        | some c => min c s.left
+      { s with left := s.left - take, credit := s.credit.map (· - take), written := s.written + take } }
+
+def cutShort (s : OwnS) : Bool := s.stopped.isSome && decide (s.left > 0)
+
+open H3.Spec.ControlRules in
+/-- the alternatives a verdict on the endpoint's own streams leaves: go on (`none`) / die with a code -/
+def ownAlts : Verdict → List (Option Nat)
+  | .ok => [none]
+  | .must cs => cs.map some
+  | .may cs => none :: cs.map some
+
+open H3.Spec.ControlRules in
+def specSetup (s : SpecSt) : List SpecSt :=
+  if s.setup != .running then [s] else
+  let env := specPush (specOpen 3 s.env)
+  let s := { s with env := env }
+  let over := env.ss.length == 3 && env.ss.all (fun x => x.left == 0 || x.stopped.isSome)
+  let ctlCut := (env.ss.take 1).any cutShort
+  let qCut := (env.ss.drop 1).any cutShort
+  let v : Verdict :=
+    if ctlCut then ownStopped .control over
+    else if qCut then ownStopped .qpack over
+    else .ok
+  (ownAlts v).filterMap fun a =>
+    match a with
+    | some c => some { s with setup := .failed, dead := some c }
+    | none => some (if over then { s with setup := .done } else s)
+
+open H3.Spec.ControlRules in
+/-- a server whose peer has sent GOAWAY answers `accept` with "no more requests"; h3 sends its own
+    last GOAWAY first (API documentation of `accept`).  With the own control stream stopped that is
+    H3_CLOSED_CRITICAL_STREAM (`ownStopped .control true`); without write credit for it the property
+    does not say whether the answer waits (both accepted, until the credit is there). -/
+def finalAlts (x : SpecSt) : List (SpecSt × Option String) :=
+  if x.finalSent then [(x, some "none")] else
+  let sent := { x with finalSent := true, waiting := false }
+  match x.env.ss[0]? with
+  | none => [(sent, some "none")]
+  | some c =>
+    if c.stopped.isSome then
+      (ownAlts (ownStopped .control true)).map fun a =>
+        match a with
+        | some e => ({ x with dead := some e }, some s!"err:{e}")
+        | none => (sent, some "none")
+    else if (match c.credit with | none => true | some k => decide (k ≥ GOAWAY_LEN)) then [(sent, some "none")]
+    else [(sent, some "none"), ({ x with waiting := true }, none)]
+
+open H3.Spec.ControlRules in
 /-- one poll of the driver, specification side -/
 def specPoll (s : SpecSt) : List (SpecSt × Option String) :=
-  ((streamPhase (s.streams.length + 1) s).flatMap ctlPhase).map fun x =>
+  (if s.waiting then [s] else (streamPhase (s.streams.length + 1) s).flatMap ctlPhase).flatMap fun x =>
     match x.dead with
-    | some c => (x, some s!"err:{c}")
-    | none => if x.rc.server && x.st.lastGoaway.isSome then (x, some "none") else (x, none)
+    | some c => [(x, some s!"err:{c}")]
+    | none =>
+      -- one of the endpoint's own critical streams was stopped by the peer: an endpoint that
+      -- notices may close the connection from now on
+      let v : Verdict :=
+        if (x.env.ss.take 1).any (·.stopped.isSome) then ownStopped .control false
+        else if x.env.ss.any (·.stopped.isSome) then ownStopped .qpack false
+        else .ok
+      let stopAlt : List (SpecSt × Option String) :=
+        (ownAlts v).filterMap fun a => a.map fun e => ({ x with dead := some e }, some s!"err:{e}")
+      if x.rc.server && x.st.lastGoaway.isSome then finalAlts x ++ stopAlt
+      else (x, none) :: stopAlt
 
 def specDrain (s : SpecSt) : SpecSt × String :=
   let fresh := s.wtOrder.filterMap fun sid => s.streams.find? (fun u => u.sid == sid && !u.drained)
@@ -680,9 +928,15 @@ def specApply (s : SpecSt) (t : Task) : Op → SpecSt × Task
   | .chunk sid b => (s.peerBytes sid b, t)
   | .fin sid => (s.peerEnd sid .fin, t)
   | .reset sid c => (s.peerEnd sid (.reset c), t)
-  | .stop _ _ => (s, t)
-  | .gu _ => (s, t)
-  | .gw sid n => ({ s with build := s.build.grant s.rc.server sid n }, t)
+  | .stop sid c =>
+    match s.env.index s.rc.server sid with
+    | some k => ({ s with env := s.env.stop k c }, t)
+    | none => (s, t)
+  | .gu n => ({ s with env := { s.env with uc := s.env.uc.map (· + n) } }, t)
+  | .gw sid n =>
+    match s.env.index s.rc.server sid with
+    | some k => ({ s with env := s.env.grant k n }, t)
+    | none => (s, t)
   | .api cmd => (s, { t with mailbox := t.mailbox ++ [cmd] })
   -- a stream error on the endpoint's own grease stream: the grease stream is optional padding
   -- (RFC 9114 §6.2.3), what the peer's streams must lead to does not depend on it
@@ -698,21 +952,21 @@ def runSpec : List (SpecSt × Task) → List Op → List (SpecSt × Task)
   | alts, op :: rest =>
     let next := alts.flatMap fun (s, t) =>
       let (s1, t1) := specApply s t op
-      if s1.build.built then runTask s1.rc.server specPoll specDrain 64 (s1, t1) else [(s1, t1)]
+      (specSetup s1).flatMap fun s2 =>
+        if s2.setup == .done then runTask s2.rc.server specPoll specDrain (fun x => { x with waiting := false }) 64 (s2, t1) else [(s2, t1)]
     runSpec next rest
 
 /-- a WebTransport stream that was drained once is not listed again, but bytes that arrive later
     on it are gone for `U`: the specification only describes the first `U` of a stream fully; later
     data on a drained stream is not observable. -/
 def renderSpec (alts : List (SpecSt × Task)) : String :=
-  if alts.any (fun (s, t) => s.unknown || t.bad || s.build.unsupported || s.build.odd) then "?" else
+  if alts.any (fun (s, t) => s.unknown || t.bad) then "?" else
   let lines := alts.map fun (s, t) =>
     let closed := match s.dead with | some c => s!"{c}" | none => ""
     s!"closed=[{closed}] res={renderList t.results ","} U={renderList t.us "/"} **"
   " || ".intercalate lines.eraseDups
 
-def handle : List String → String
-  | "ctl" :: role :: cfg :: ops =>
+def handleWith (strict : Bool) (role cfg : String) (ops : List String) : String :=
     if role != "server" && role != "client" then "bad-op" else
     let server := role == "server"
     match parseCfg server cfg with
@@ -720,11 +974,18 @@ def handle : List String → String
     | some rc =>
       let task := if server then "conn" else "drv"
       let ops := ops.map (parseOp task)
-      let s0 := Sys.init rc
+      let s0 := pollBuild (Sys.init rc)
       let (s, t) := runModel s0 {} ops
-      let sp0 : SpecSt := { rc := rc, build := Build.init rc }
-      let alts := runSpec [(sp0, {})] ops
-      renderModel s t ++ " ## " ++ renderSpec alts
+      let m := renderModel s t
+      -- no definite model answer (an op outside the engine, an ambiguous header length): no opinion
+      if m == "unsupported" then "unsupported ## ?" else
+      let sp0 : SpecSt := { rc := rc, env := OwnNet.init rc, strict := strict }
+      let alts := runSpec ((specSetup sp0).map fun x => (x, {})) ops
+      m ++ " ## " ++ renderSpec alts
+
+def handle : List String → String
+  | "ctl" :: role :: cfg :: ops => handleWith false role cfg ops
+  | "ctlrfc" :: role :: cfg :: ops => handleWith true role cfg ops
   | _ => "bad-op"
 
 end H3.Drv.C04
